@@ -224,8 +224,8 @@ class C14(Property):
     technique = "Lean 4 model + refinement proofs; differential correspondence; exhaustive short paths"
     rule = ""
     exhaustive_note = ""
-    quick_n = 6000
-    thorough_n = 120000
+    quick_n = 70000
+    thorough_n = 600000
 
     # -------------------------------------------------------------- cases
     def _case(self, tree, start, path, strict, single, ast=None):
